@@ -72,33 +72,51 @@ type Ctx struct {
 	ssaPkgs  map[string]*ssa.Package
 	loadedOK bool
 	gemCache *GEM
+	patterns map[string]bool
 }
 
 func (c *Ctx) thorough() bool { return c.Tier == "thorough" }
 
 // ---------------------------------------------------------------- loading
 
-// load type-checks the given patterns (relative to the repo root) with all dependencies from source.
+// load parses and type-checks the given patterns (relative to the repo root). All patterns ever requested
+// are (re)loaded together, so that every package lives in one type universe.
 func (c *Ctx) load(patterns ...string) {
 	if c.loaded == nil {
 		c.loaded = map[string]*packages.Package{}
 	}
-	var need []string
+	if c.thorough() {
+		patterns = []string{"./..."}
+	}
+	need := false
 	for _, p := range patterns {
-		ip := modPath
-		if p != "." {
-			ip = modPath + "/" + strings.TrimPrefix(p, "./")
-		}
-		if _, ok := c.loaded[ip]; !ok || strings.HasSuffix(p, "...") {
-			need = append(need, p)
+		if !c.patterns[p] && !c.patterns["./..."] {
+			need = true
 		}
 	}
-	if len(need) == 0 {
+	if !need {
 		return
 	}
-	if c.fset == nil {
-		c.fset = token.NewFileSet()
+	if c.patterns == nil {
+		c.patterns = map[string]bool{}
 	}
+	for _, p := range patterns {
+		c.patterns[p] = true
+	}
+	var all []string
+	for p := range c.patterns {
+		all = append(all, p)
+	}
+	sort.Strings(all)
+	if c.patterns["./..."] {
+		all = []string{"./..."}
+	}
+	c.fset = token.NewFileSet()
+	c.loaded = map[string]*packages.Package{}
+	c.roots = nil
+	c.prog = nil
+	c.gemCache = nil
+	genVarFields = nil
 	env := append(os.Environ(), "GOFLAGS=-mod=readonly", "GOPROXY=off", "GOSUMDB=off", "GOTOOLCHAIN=local", "GOWORK=off")
 	cfg := &packages.Config{
 		Mode:  loadMode(),
@@ -107,12 +125,12 @@ func (c *Ctx) load(patterns ...string) {
 		Env:   env,
 		Tests: false,
 	}
-	pkgs, err := packages.Load(cfg, need...)
+	pkgs, err := packages.Load(cfg, all...)
 	if err != nil {
-		fatalf("load %v: %v", need, err)
+		fatalf("load %v: %v", all, err)
 	}
 	if len(pkgs) == 0 {
-		fatalf("load %v: zero packages", need)
+		fatalf("load %v: zero packages", all)
 	}
 	nerr := 0
 	packages.Visit(pkgs, nil, func(p *packages.Package) {
@@ -122,15 +140,13 @@ func (c *Ctx) load(patterns ...string) {
 				nerr++
 			}
 		}
-		if old, ok := c.loaded[p.PkgPath]; !ok || old.Syntax == nil {
-			c.loaded[p.PkgPath] = p
-		}
+		c.loaded[p.PkgPath] = p
 	})
 	if nerr > 0 {
-		c.add("E0.load", "load:"+strings.Join(need, ","), Undecided, "", fmt.Sprintf("%d load/type errors in module packages; nothing can be decided on a tree that does not type-check", nerr))
+		c.add("E0.load", "load:"+strings.Join(all, ","), Undecided, "", fmt.Sprintf("%d load/type errors in module packages; nothing can be decided on a tree that does not type-check", nerr))
 	}
-	c.roots = append(c.roots, pkgs...)
-	c.prog = nil // invalidate SSA
+	c.roots = pkgs
+	c.count("packages_loaded_from_source", len(pkgs))
 }
 
 func (c *Ctx) pkg(rel string) *packages.Package {
